@@ -29,6 +29,7 @@ type c15SimTx struct {
 	good      bool // expected to have validated, locked and been persisted
 	put       bool
 	final     bool
+	finalNode int // the node whose snapshot finalized it first
 }
 
 type c15Sim struct {
@@ -63,9 +64,16 @@ func c15Info(a int) [2]int {
 func (s *c15Sim) header() {
 	s.emit("reset")
 	s.emit("config 1 %s", c15ClaimFee())
-	for a := 1; a <= 6; a++ {
+	for a := 1; a <= 8; a++ {
 		s.emit("asset %d %s", a, c15Cap(a))
 		s.total[a] = new(big.Int)
+	}
+	// the malformed symbols (the executor checks each declaration against the real rule)
+	for _, k := range c15BadAkeys {
+		s.emit("badakey %d", k)
+	}
+	for _, d := range c15BadDeps {
+		s.emit("baddep %d", d)
 	}
 	s.emit("ginfo 1 3 1")
 	xin := c15Info(1)
@@ -331,6 +339,7 @@ func (s *c15Sim) applyFinal(members []int, node, topo int) {
 			continue
 		}
 		t.final = true
+		t.finalNode = node
 		for _, o := range t.outs {
 			o.live = true
 		}
@@ -447,7 +456,11 @@ func c15GenLedger(r *Rand, i int, tier string) []string {
 		s.someDeposit()
 	}
 	for k := 0; k < steps; k++ {
-		switch r.Intn(36) {
+		switch r.Intn(41) {
+		case 36, 37, 38:
+			s.malformed()
+		case 39, 40:
+			s.reoffer()
 		case 32, 33:
 			s.failingOutput()
 		case 34, 35:
@@ -1054,6 +1067,125 @@ func (s *c15Sim) concurrent() {
 	s.emit("supply")
 	for _, o := range all {
 		s.applyFinal(o.members, o.node, o.topo)
+	}
+}
+
+var (
+	c15BadAkeys  = []int{9001, 9002, 9003, 9004, 9006, 9008}
+	c15GoodAkeys = []int{9005, 9007}
+	c15BadDeps   = []int{9101, 9102, 9103}
+)
+
+// deposits (the first of an unseen asset, and later ones) whose own data sits on each boundary of
+// Asset.Verify (zero chain; empty key; leading / trailing white space of several kinds) and of the rule on
+// the deposit's transaction string, plus well-formed look-alikes; through the storage-level flow and
+// through the node's own validation. Only what the real validation accepted is finalized.
+func (s *c15Sim) malformed() {
+	r := s.r
+	asset := Pick(r, []int{6, 7, 8, 7, 8, 4, 5})
+	info := c15Info(asset)
+	if s.info[asset] != nil {
+		info = *s.info[asset]
+	}
+	opt := c15DepOpt{noAdmit: true}
+	good := false
+	switch r.Intn(5) {
+	case 0:
+		info[0] = 0
+	case 1, 2:
+		info[1] = Pick(r, c15BadAkeys)
+	case 3:
+		d := Pick(r, append(append([]int(nil), c15BadDeps...), 9104))
+		if s.uniq[[2]int{-d, 0}] {
+			return
+		}
+		s.uniq[[2]int{-d, 0}] = true
+		opt.depID = d
+		good = d == 9104
+	default:
+		if s.info[asset] != nil {
+			return // a look-alike key differs from the stored one: an ordinary mismatch, covered elsewhere
+		}
+		info[1] = Pick(r, c15GoodAkeys)
+		good = true
+	}
+	opt.info = &info
+	t := s.deposit(asset, c15Units(int64(r.Range(1, 30))), opt)
+	t.good = good && s.fits([]int{t.id})
+	node := 1 + r.Intn(c15Nodes)
+	if r.Bool() {
+		s.emit("validate %d 0", t.id)
+		s.emit("persistv %d 0", t.id)
+		topo := s.nextTopo
+		s.snapshotValidated([]int{t.id}, node)
+		if t.good {
+			t.put = true
+			s.applyFinal([]int{t.id}, node, topo)
+		}
+	} else {
+		args, topo := s.kargs([]int{t.id}, node)
+		s.kvalidate(args, false)
+		s.ksnap(args)
+		if t.good {
+			t.put = true
+			s.applyFinal([]int{t.id}, node, topo)
+		}
+	}
+}
+
+// a chain proposes again what it (or another chain) already finalized: the same node in a later snapshot,
+// another node, alone or next to a fresh transaction; and another node's finalized snapshot sharing it
+func (s *c15Sim) reoffer() {
+	r := s.r
+	var cands []*c15SimTx
+	for _, id := range s.finalIDs() {
+		if t := s.txs[id]; t.finalNode != 0 && (t.kind == "deposit" || t.kind == "transfer" || t.kind == "submit" || t.kind == "claim") {
+			cands = append(cands, t)
+		}
+	}
+	if len(cands) == 0 {
+		return
+	}
+	t := Pick(r, cands)
+	members := []int{t.id}
+	var fresh *c15SimTx
+	if r.Chance(1, 3) {
+		s.noAdmit = true
+		fresh = s.someDeposit()
+		s.noAdmit = false
+		members = append(members, fresh.id)
+	}
+	other := 1 + r.Intn(c15Nodes)
+	for other == t.finalNode || s.uniq[[2]int{t.id, other}] {
+		other = 1 + r.Intn(c15Nodes)
+		if r.Chance(1, 20) {
+			return
+		}
+	}
+	switch r.Intn(4) {
+	case 0, 1: // the same chain, a later snapshot: refused at signing ("finalized in snapshot ...")
+		args, _ := s.kargs(members, t.finalNode)
+		s.kvalidate(args, false)
+		s.ksnap(args)
+	case 2: // another chain proposes it: refused as well
+		args, _ := s.kargs(members, other)
+		s.kvalidate(args, false)
+		s.ksnap(args)
+	default: // a finalized snapshot of another chain that shares it: applied, effects once
+		args, topo := s.kargs(members, other)
+		s.kvalidate(args, true)
+		s.ksnap(args)
+		ok := fresh == nil || (fresh.good && s.fits(members))
+		if ok {
+			if fresh != nil {
+				fresh.put = true
+			}
+			s.applyFinal(members, other, topo)
+			return
+		}
+	}
+	if fresh != nil {
+		fresh.good = false
 	}
 }
 
